@@ -104,7 +104,16 @@ def correspondence(ctx):
         per_variant[v] = n_ok
     for f, c, rr in synth_disagree[:2]:
         ctx.notes.append("synthesizer's own simulation differs from R on a frame R accepts (generator imprecision, not a finding): %d vs %s" % (len(c), rr))
-    return dict(evaluations=ev, distinct_nontrivial=len({f for f, _ in valid if len(f) > 16}),
+    # function-level tie of the decoding-table builders: FSE_buildDTable_wksp and ZSTD_buildFSETable (both BMI2 settings) against
+    # FSE.buildCells / FSE.buildSeqTable on random distributions, biased to small accuracy logs with many "less than one" symbols
+    import ent_fse
+    nb = len(ctx.violations)
+    fsr = ent_fse.run(ctx)
+    for v in ctx.violations[nb:]:
+        v["no_input"] = False
+        v["replay"] = dict(v.get("replay") or {}, ent="fse")
+    ev += fsr.get("evaluations", 0)
+    return dict(evaluations=ev, table_builder_tie=fsr, distinct_nontrivial=len({f for f, _ in valid if len(f) > 16}),
                 rule="valid frames = synthesized streams accepted by the reference Lean decoder + real compressor frames + dictionary frames; each decoded by %d build variants of the current tree "
                      "(default asm/BMI2, HUF X1 + short sequence decoder, HUF X2 + long/prefetch sequence decoder%s) through one-shot (exact and roomy dst), streaming under segmentations, buffer-less, stable-output, in-place, "
                      "and DDict cold / warm / buffer-less; distinct = distinct frames > 16 bytes" % (len(variants), ", no-asm, ASan" if not ctx.quick() else ""),
@@ -113,6 +122,9 @@ def correspondence(ctx):
 
 
 def replay(ctx, data):
+    if data.get("ent") == "fse":
+        import ent_fse
+        return ent_fse.replay(ctx, data)
     exe = frames.harness(data.get("variant", "plain"))
     rc, out, err = frames.run_lines(exe, [data["op"]])
     return dict(violates=(out[:1] != [data.get("reference")]), got=out, reference=data.get("reference"), stderr=err[-800:])
